@@ -132,6 +132,7 @@ def problems(env, cfg, tier):
             "C09.step_count": s2.step_count == s.step_count + 1,
             "C09.frame": (s2.flat_mine_locations == s.flat_mine_locations).all() & (s2.key == s.key).all(),
             "C11.counting": s2.step_count == s.step_count + 1,
+            "C11.last_only_for_a_documented_reason": ~last | ~ok | mine | all_safe_revealed2,
             "C11.variant_decreases": last | (unexplored_safe2 < unexplored_safe),
             "C11.variant_bounded": (unexplored_safe >= 1) & (unexplored_safe <= R * C - M),
             "C11.variant_plus_steps_is_the_horizon": unexplored_safe + s.step_count == R * C - M,
